@@ -519,9 +519,10 @@ def stop_semantics_e6(ctx):
 
         def canon_q(l, qkey):
             out = {}
+            qsuffix = ", %r)" % (eval(qkey)[2],) if qkey.startswith("('elem'") else None
             for k_, v in l[0].items():
-                if k_ == qkey:
-                    out["q"] = v
+                if k_ == qkey or (qsuffix is not None and k_.startswith("('elem'") and k_.endswith(qsuffix)):
+                    out["q"] = out.get("q", 0) + v
                 elif k_ == repr(("var13", "q")):
                     out["q"] = out.get("q", 0) + v
                 elif k_ == repr(("var13", "N")):
@@ -602,6 +603,10 @@ def stop_semantics_e6(ctx):
                 qv = ("elem", lp[2], l2)
                 return pair_window(g[0], g[1], ("rng", qv), repr(qv), ladd(e6.lin(rng[1]), e6.lin(rng[0]), -1))
             al = e6.is_call(t0, "all", 2)
+            inverted = False
+            if al is None and e6.is_call(t0, "any", 2) is not None:
+                al = e6.is_call(t0, "any", 2)          # any(P) is not all(not P): the fact is read with the opposite truth value (see the caller)
+                inverted = True
             if al and isinstance(al[1], tuple) and al[1][0] == "closure":
                 cid = "cl%s" % (al[1][1],)
                 lp = [f for f in eff if f[0] == "loop" and f[1] == cid]
@@ -611,16 +616,19 @@ def stop_semantics_e6(ctx):
                 if len(live) != 1 or live[0][0] or live[0][1] or live[0][2] is not None:
                     return "all-closure-shape"
                 vt, vp = unnot(live[0][3], True)
+                if inverted:
+                    vp = not vp
                 g = gt_pair(vt, vp)
                 if g is None:
                     return "pair-test:%s" % e6.show(vt, 2)[:40]
                 src = deref(al[0])
                 rng = e6.range_of(src)
                 qv = ("elem", lp[0][2], cid)
+                inv = (lambda r_: ("inverted:" + r_) if (inverted and r_ == "ok") else r_)
                 if rng is not None:
                     if e6.lin(rng[0]) != ({}, 0):
                         return "all-range"
-                    return pair_window(g[0], g[1], ("rng", qv), repr(qv), ladd(e6.lin(rng[1]), e6.lin(rng[0]), -1))
+                    return inv(pair_window(g[0], g[1], ("rng", qv), repr(qv), ladd(e6.lin(rng[1]), e6.lin(rng[0]), -1)))
                 w = e6.is_call(src, "windows", 2)
                 if w and e6.lin(w[1]) == ({}, 2):
                     S = deref(w[0])
@@ -633,7 +641,7 @@ def stop_semantics_e6(ctx):
                         return "window-covers-the-whole-history"
                     else:
                         return "not-the-recorded-losses"
-                    return pair_window(g[0], g[1], ("win", qv), repr(qv), cnt)
+                    return inv(pair_window(g[0], g[1], ("win", qv), repr(qv), cnt))
                 return "all-source:%s" % e6.show(src, 2)[:40]
             return None
         for x in e[3]:
@@ -660,6 +668,8 @@ def stop_semantics_e6(ctx):
                 w = window(t0, x)
                 if w == "ok":
                     INC.add(pol0)
+                elif w == "inverted:ok":
+                    INC.add(not pol0)
                 elif w is not None:
                     wrong.append("window test: " + w)
             if len(A) == 2 or len(INC) == 2:
